@@ -45,7 +45,7 @@ REQUIRED = dict(monitors=['intensity-per-angle', 'flux', 'eclipse-spectrum', 'di
                          'rerun:evaluated-after-change', 'mode:ktable', 'ktable:continuum-only-model',
                          'ktable:model_contrib-entry-judged', 'ktable-mode:no-molecular-absorber',
                          'fault:fired:temperature', 'fault:fired:chemistry', 'fault:fired:contribution', 'fault:fired:pressure',
-                         'several:evaluation-judged', 'several:set_quadratures-on-another-model', 'wn-dtype:i', 'T-route:mixin'])
+                         'several:evaluation-judged', 'several:set_quadratures-on-another-model', 'wn-dtype:i', 'T-route:mixin', 'chemistry:makefree+file'])
 CUT = math.exp(-10.0)
 _state = {}
 
@@ -119,6 +119,8 @@ def make_case(rng, tkind=None, nlayers=None):
         spec['cia_seed'] = int(rng.integers(0, 2 ** 31))
         spec['new_method'] = False
         spec['ngauss'] = int(rng.choice([1, 2, 3, 4, 8]))
+        if rng.random() < 0.1:
+            world.make_free_route(rng, spec)         # composition by the ``makefree+file`` route
         if world.is_bound(spec):
             return spec
     raise RuntimeError('generator could not draw a bound atmosphere')
@@ -327,6 +329,7 @@ def wl_ktable(ctx, rng):
 def observe_case(ctx, spec, kind):
     ctx.observe('wn-dtype:' + next(iter(spec['tables'].values()))['wn'].dtype.kind)
     ctx.observe('T-route:mixin' if spec['temperature'].get('scale') else 'T-route:plain')
+    ctx.observe('chemistry:makefree+file' if spec.get('makefree') else 'chemistry:free')
     ctx.observe('model:' + kind, 'magnitude:' + spec['magnitude'], 'nlayers:%d' % spec['nlayers'],
                 'T:' + spec['temperature']['kind'], 'ngauss:%d' % spec['ngauss'])
     for c in spec['contributions']:
